@@ -317,7 +317,10 @@ def make_library(rng, pr, N, units=None, e_max=0.95, ln_prior=True, s_values=Non
     samples["M0"] = (M0 * u.rad).to(cu["M0"])
     samples["s"] = (sv * du).to(cu["s"])
     if ln_prior:
-        samples["ln_prior"] = np.arange(N) + 0.5      # recognisable values
+        # recognisable values, different from library to library (a stale ln_prior of ANOTHER library must be
+        # visible); derived from the content, not from the generator, so that the case streams do not move
+        base = float(int(abs(float(P[0])) * 1e6) % 9973) * 64.0
+        samples["ln_prior"] = base + np.arange(N) + 0.5
     phys = dict(P=P, e=e, omega=om, M0=M0, s=sv, units={k: str(v) for k, v in cu.items()})
     return samples, phys
 
